@@ -176,9 +176,10 @@ HARNESSES = [
         quick=R.tier(cells=_rs_cells(2, 2, 2) + _rs_cells(3, 1, 1),
                      env={"VP_N": 2, "VP_M": 1}, timeout=300,
                      bound="2 cells of any Unicode text <= 2 characters each, or 3 cells of <= 1 character each"),
-        thorough=R.tier(cells=_rs_cells(2, 3, 3) + _rs_cells(3, 2, 2),
-                        env={"VP_N": 3, "VP_M": 2}, timeout=1500, path_timeout=60,
-                        bound="2 cells <= 3 characters each, or 3 cells <= 2 characters each"),
+        thorough=R.tier(cells=_rs_cells(2, 3, 2) + _rs_cells(3, 1, 1),
+                        env={"VP_N": 3, "VP_M": 2}, timeout=1200, path_timeout=60,
+                        bound="2 cells (<= 3 and <= 2 characters), or 3 cells (<= 1, <= 1 and <= 2 characters); the "
+                              "planned 3+3 / 2+2+2 did not exhaust in 1500 CPU-s per cell"),
         what="for a row combined from several cells, the reported span of every tag and group selects exactly that "
              "item's text inside its own cell's stretch of the comma-joined row text; foreign tags have no span",
         oracle="inline slice comparison",
